@@ -187,7 +187,7 @@ func runC19(c *Ctx) {
 			}
 			n++
 			path := reachableWithout(ucs, a.Instr, seenEdges)
-			c.check(len(seenEdges) >= 2 && path == nil, "O-3 uniqueness bookkeeping under the lock", "UpdateCountryStats: count change behind the not-seen-yet edges", p.instrPos(a.Instr),
+			c.check(len(seenEdges) >= 1 && path == nil, "O-3 uniqueness bookkeeping under the lock", "UpdateCountryStats: count change behind the not-seen-yet edges", p.instrPos(a.Instr),
 				fmt.Sprintf("behind %d 'address already seen' tests", len(seenEdges)), "a per-country count can change for an address that was already counted in this period", p.pathString(path)...)
 		}
 		if n == 0 {
@@ -213,7 +213,7 @@ func runC19(c *Ctx) {
 			_, ok := b.Instrs[len(b.Instrs)-1].(*ssa.Return)
 			return ok
 		})
-		c.check(len(seenTrue) >= 2 && path == nil, "O-3 uniqueness bookkeeping under the lock", "UpdateCountryStats records every new address in its per-type set before any other exit", p.Pos(ucs.Pos()), "",
+		c.check(len(seenTrue) >= 1 && path == nil, "O-3 uniqueness bookkeeping under the lock", "UpdateCountryStats records every new address in its per-type set before any other exit", p.Pos(ucs.Pos()), "",
 			"a path returns without the address having been found in, or added to, its per-type set (for example when no geoip database is loaded): the per-period unique-address figures stay too low", p.pathString(path)...)
 	}
 
